@@ -80,6 +80,19 @@ CLAIMS = {
         note=("3 POMDP skeletons (2-3 states, 2 actions, 2-3 observations, absorbing state, revealing kernel); transition kernels "
               "concrete; beliefs with symbolic entries are not merged when equal (asserted quantities are invariant under merging)"),
         ref='DESIGN.md section 4 C07'),
+    'C12': dict(
+        text=("Table / ProbabilityTable / StateTable / StateActionTable / StateActionNextStateTable / TabularPolicy indexing is "
+              "executed on tables whose every cell is a distinct free symbolic real, so 'returns exactly that cell' is decided for "
+              "all data at once as a term identity. For every combination of field domains from a menu of colliding hashables "
+              "(tuples that are both keys and key-tuples, None, floats, frozensets, singletons) the harness checks, against "
+              "nested-dictionary semantics written independently: every full key, nested keys, partial tuples, every ordered "
+              "outer-key list of 1-3 keys, full slices, ellipses in every position, the outer-element precedence rule, "
+              "keys/items/len order, probability-table rows as distributions, and that every foreign key raises (the "
+              "state/action index error for MDP tables)."),
+        note=("1-3 fields, domain sizes 1-4, 9 domain menus; the discrete part is exhaustive enumeration inside the bound (declared "
+              "as such), the solver's share is the quantification over the table data; subset selectors inside multi-field keys "
+              "and partial slices are outside the statement"),
+        ref='DESIGN.md section 4 C12'),
     'C11': dict(
         text=("For every support size within the bound and every distribution kind, the probability-calculus laws are "
               "proved for ALL probability/weight/score values at once (symbolic reals, zero entries included), by running "
